@@ -816,7 +816,8 @@ FAULT_KINDS = ["timeout", "rlimit", "memory", "unknown", "canceled"]
 FAULTABLE = {"sat", "eval", "batch_eval", "min", "max", "solution", "unsat_core"}
 
 
-ALL_EXACT = [("Solver", 4), ("SolverCacheless", 2), ("SolverComposite", 3), ("SolverReplacement", 2), ("SolverHybrid", 2)]
+ALL_EXACT = [("Solver", 4), ("SolverCacheless", 2), ("SolverComposite", 3), ("SolverReplacement", 2), ("SolverHybrid", 2),
+             ("SolverStrings", 1)]
 ALL_EXACT_LIST = ALL_EXACT
 FLAG_SHAPES = [
     [["a", 3], ["b", 3], ["f", 2]],
@@ -887,7 +888,7 @@ PROFILES = {
         "max_handles": 5,
     },
     "C11": {
-        "frontends": [("Solver", 6), ("SolverCacheless", 2)],
+        "frontends": [("Solver", 6), ("SolverCacheless", 2), ("SolverStrings", 1)],
         "length": (3, 40),
     },
     "C12": {
@@ -964,7 +965,8 @@ PROFILES = {
         "max_handles": 6,
     },
     "C15": {
-        "frontends": [("Solver", 4), ("SolverCacheless", 2), ("SolverComposite", 4), ("SolverHybrid", 2), ("SolverReplacement", 2)],
+        "frontends": [("Solver", 4), ("SolverCacheless", 2), ("SolverComposite", 4), ("SolverHybrid", 2), ("SolverReplacement", 2),
+                      ("SolverStrings", 1)],
         "var_shapes": FLAG_SHAPES,
         "length": (6, 36),
         "weights": {"branch": 14, "merge": 9, "combine": 8, "split": 6, "add": 24, "new": 4, "split_recombine": 4, "merge3": 4},
@@ -996,7 +998,8 @@ PROFILES = {
         "approx_simple_constraints": True,
     },
     "C17": {
-        "frontends": [("Solver", 4), ("SolverCacheless", 4), ("SolverComposite", 3), ("SolverHybrid", 2), ("SolverReplacement", 2)],
+        "frontends": [("Solver", 4), ("SolverCacheless", 4), ("SolverComposite", 3), ("SolverHybrid", 2), ("SolverReplacement", 2),
+                      ("SolverStrings", 1)],
         "length": (4, 18),
         "fault_enum": True,
         "weights": {"branch": 8, "forget": 0, "gc": 0},
@@ -1004,14 +1007,16 @@ PROFILES = {
         "max_positions": 15,
     },
     "C17all": {   # thorough: every check position of the target operation
-        "frontends": [("Solver", 4), ("SolverCacheless", 4), ("SolverComposite", 3), ("SolverHybrid", 2), ("SolverReplacement", 2)],
+        "frontends": [("Solver", 4), ("SolverCacheless", 4), ("SolverComposite", 3), ("SolverHybrid", 2), ("SolverReplacement", 2),
+                      ("SolverStrings", 1)],
         "length": (4, 18),
         "fault_enum": True,
         "weights": {"branch": 8, "forget": 0, "gc": 0},
         "extra_pct": 20,
     },
     "C17multi": {
-        "frontends": [("Solver", 4), ("SolverCacheless", 4), ("SolverComposite", 3), ("SolverHybrid", 2), ("SolverReplacement", 2)],
+        "frontends": [("Solver", 4), ("SolverCacheless", 4), ("SolverComposite", 3), ("SolverHybrid", 2), ("SolverReplacement", 2),
+                      ("SolverStrings", 1)],
         "length": (5, 30),
         "fault_rate": 14,
         "weights": {"branch": 8},
